@@ -21,7 +21,7 @@ def git(root, *args, date=None, stdin=None):
     return p.stdout.strip()
 
 
-def build(root, commits, head=None, detached=False, refs=None, tags=None):
+def build(root, commits, head=None, detached=False, refs=None, tags=None, atags=None):
     """commits: list of parent-index lists (commit i may only name parents < i).
     Returns list of hashes.  head=None => repository without commits."""
     git(root, "init", "-q", "-b", "main")
@@ -42,6 +42,9 @@ def build(root, commits, head=None, detached=False, refs=None, tags=None):
         git(root, "update-ref", "refs/heads/" + name, hashes[idx])
     for name, idx in (tags or {}).items():
         git(root, "update-ref", "refs/tags/" + name, hashes[idx])
+    for name, idx in (atags or {}).items():
+        # an annotated tag: the ref points at a tag object, not at the commit
+        git(root, "tag", "-a", name, "-m", "annotated", hashes[idx], date=1600000000)
     return hashes
 
 
